@@ -790,3 +790,59 @@ def programs(tier, seed, ci, nc, count=3000, ops=('render', 'pvisit', 'ptruth', 
 
 
 STREAMS['programs'] = programs
+
+
+def progexec(tier, seed, ci, nc, count=2000, ops=('progexec', 'declared', 'variants')):
+    from . import progs
+    rng = _rng(seed, 'progexec', ci)
+    for i in range(count // nc):
+        p = progs.rand_prog(rng)
+        vseed = rng.randint(0, 10 ** 9)
+        if 'progexec' in ops:
+            yield ('rt:progexec', p)
+        if 'declared' in ops:
+            yield ('rt:declared', p)
+        if 'variants' in ops and i % 2 == 0:
+            yield ('rt:variants', p, vseed)
+
+
+STREAMS['progexec'] = progexec
+
+
+def probes_c05(tier, seed, ci, nc):
+    return _slice(iter([('rt:nested_taint',)]), ci, nc)
+
+
+STREAMS['probes_c05'] = probes_c05
+
+
+def retrieve(tier, seed, ci, nc, n_other=3000, n_plain=2000, n_sphinx=1500):
+    """C07 over the corpus: all star-taking functions + a seeded sample of the other callables"""
+    from . import corpus
+    funcs, others = corpus.callables()
+    rng = _rng(seed, 'retrieve', 0)
+    star = [i for i, f in enumerate(funcs) if f.__code__.co_flags & 0x0c]
+    nostar = [i for i, f in enumerate(funcs) if not f.__code__.co_flags & 0x0c]
+    if tier == 'quick':
+        nostar = sorted(rng.sample(nostar, min(n_plain, len(nostar))))
+        oth = sorted(rng.sample(range(len(others)), min(n_other, len(others))))
+        sph = sorted(rng.sample(range(len(funcs)), min(n_sphinx, len(funcs))))
+    else:
+        oth = range(len(others))
+        sph = range(len(funcs))
+
+    def gen():
+        yield ('rt:adversarial',)
+        for i in star:
+            yield ('rt:retrieve', 'f', i)
+        for i in nostar:
+            yield ('rt:retrieve', 'f', i)
+        for i in oth:
+            yield ('rt:retrieve', 'o', i)
+        for i in sph:
+            yield ('rt:sphinx', i)
+    return _slice(gen(), ci, nc)
+
+
+PREFORK['retrieve'] = _corpus_prefork
+STREAMS['retrieve'] = retrieve
